@@ -62,7 +62,7 @@ func genCase(r *kit.Rand, idx int, tier string) []string {
 	pickScript := func(pool []string) string {
 		for {
 			sc := kit.Pick(r, pool)
-			if withBatch && r.Chance(1, 3) {
+			if withBatch && r.Chance(1, 2) {
 				sc = kit.Pick(r, batchScripts)
 			}
 			if isBatchScript(sc) && !withBatch {
